@@ -52,6 +52,12 @@ def stacks():
     import kappadata.transforms.semseg as S
     from replay.seeded import _base
 
+    from kappadata.collators.base.kd_compose_collator import KDComposeCollator
+    from kappadata.collators.base.kd_single_collator_wrapper import KDSingleCollatorWrapper
+
+    def mix():
+        return KDMixCollator(mixup_alpha=0.8, cutmix_alpha=1.0, mixup_p=0.5, cutmix_p=0.5)
+
     def nested():
         return T.KDComposeTransform([T.KDRandomApply(T.KDComposeTransform([T.KDColorJitter(0.4, 0.4, 0.2, 0.1), T.KDRandomThreshold(threshold=0.5, threshold_std=0.1, p=0.5)]), p=0.5),
                                      PatchwiseTransform(4, T.KDAdditiveGaussianNoise(std=0.1)), KDScheduledTransform(T.KDRandomAdditiveGaussianNoise(std=0.1, p=0.5)),
@@ -64,6 +70,14 @@ def stacks():
         "Mode(MultiView(2 configs))": lambda: ModeWrapper(KDMultiViewWrapper(_base(), configs=[(2, T.KDRandomResizedCrop(size=8)), (1, nested())]), mode="x"),
         "Mode(Semseg(flip, crop, jitter))": lambda: ModeWrapper(SemsegTransformWrapper(_base(), transforms=[S.KDSemsegRandomHorizontalFlip(), S.KDSemsegRandomCrop(size=8),
                                                                                                          T.KDColorJitter(0.4, 0.4, 0.2, 0.1)]), mode="x semseg"),
+        # a wrapper ABOVE a concat of >= 2 wrapped members: every member's wrappers must be reached, not only datasets[0]
+        "Mode(XTransform(Concat(XTransform, XTransform, XTransform)))": lambda: ModeWrapper(XTransformWrapper(KDConcatDataset([
+            XTransformWrapper(_base(), transform=T.KDRandomCrop(size=8)), XTransformWrapper(_base(), transform=T.KDRandomGrayscale(p=0.5)),
+            XTransformWrapper(_base(collators=[mix()]), transform=nested())]), transform=T.KDColorJitter(0.4, 0.4, 0.2, 0.1)), mode="x"),
+        # collators registered on the root dataset: a direct single collator and container collators that only forward set_rng
+        "Mode(XTransform(root with mix collator))": lambda: ModeWrapper(XTransformWrapper(_base(collators=[mix()]), transform=T.KDRandomGrayscale(p=0.5)), mode="x class"),
+        "Mode(root with compose collator)": lambda: ModeWrapper(_base(collators=[KDComposeCollator([mix(), mix()], dataset_mode="x class")]), mode="x class"),
+        "Mode(Subset(root with single-collator wrapper))": lambda: ModeWrapper(KDSubset(_base(collators=[KDSingleCollatorWrapper(mix(), dataset_mode="x class")]), [0, 1, 2]), mode="x class"),
     }
     return S_
 
@@ -76,6 +90,7 @@ def worker(ds, seed, rank=0):
 
 
 def check(name, make):
+    np.random.seed(987654321)        # the parent's global state at construction time: unrelated to any worker seed
     ds = make()
     pre = {p: state(g) for p, g in reachable_generators(ds)}
     if not pre:
